@@ -182,6 +182,19 @@ Theorem time_text_out_of_range_refuted :
 Proof. exact CodecTime.time_text_out_of_range_refuted. Qed.
 Print Assumptions time_text_out_of_range_refuted.
 
+(** Interface before tag, on both sides: for a column whose type is its own driver.Valuer and sql.Scanner
+    neither Valuer.Value nor Scanner.Scan depends on the tag the column carries (both ask for the interface
+    first), so the round trip [scan_after_value_is_identity] -- whose domain [desc_ok] includes these
+    types under every tag -- holds for them whatever the tag. *)
+Theorem self_typed_column_ignores_its_tag :
+  forall e d tg x s,
+    self_scanning (d_base d) = true ->
+    match x with FNil => True | FVal g => gval_ok e (d_base d) g = true end ->
+    valuer (retag d tg) (dyn_of (retag d tg) x) = valuer d (dyn_of d x) /\
+    scanner e (retag d tg) s = scanner e d s.
+Proof. exact CodecProofs.self_typed_column_ignores_its_tag. Qed.
+Print Assumptions self_typed_column_ignores_its_tag.
+
 (** * Registration and dispatch tables
 
     Every descriptor the round-trip theorems range over ([desc_ok]) is one sqlgen registers: the model of
@@ -282,4 +295,12 @@ Example registration_refusals :
   register_ok toy_env (mk_desc (BCustom CBin) false TNone) = false /\
   register_ok toy_env (mk_desc (BInt 64) true TImplicitNull) = false /\
   register_ok toy_env (mk_desc (BCustom CTri) true TNone) = true.
+Proof. vm_compute. repeat split; reflexivity. Qed.
+
+(** A json-tagged column of a type that is its own Valuer / Scanner is in the round trip's domain and is
+    written by the type, not as JSON. *)
+Example tagged_self_typed_column :
+  let d := mk_desc (BCustom CValuer) false TJson in
+  desc_ok d = true /\ valuer d (dyn_of d (FVal (GCust "x"))) = DBytes "x" /\
+  scanner toy_env d (SBytes "x") = Ok (FVal (GCust "x")).
 Proof. vm_compute. repeat split; reflexivity. Qed.
